@@ -53,6 +53,9 @@ var runCounter atomic.Uint64
 // Beat is bumped at the start of every run; the watchdog in the worker watches it.
 var Beat atomic.Uint64
 
+// CurrentEnv is the run in progress (for the watchdog).
+var CurrentEnv atomic.Pointer[Env]
+
 var uniq atomic.Uint64
 
 // Uniq returns a process-unique suffix for CompIDs (the engine's session registry is global).
@@ -64,6 +67,7 @@ func RunOne(t *testing.T, prop *Property, seed uint64, ch *Chooser, tier string,
 	env := NewEnv(prop.ID, seed, ch)
 	env.Verbose = verbose
 	out.Seed = seed
+	CurrentEnv.Store(env)
 	body := func() {
 		env.T0 = time.Now()
 		simnet.SetCurrent(nil)
